@@ -111,13 +111,17 @@ class DilutionPlan:
                 break
 
         # prepare remaining columns by diluting existing ones
+        # (keeping track of the volume that was already drawn from each prepared column)
+        drawn = [0] * C
         for c in range(len(instructions), C):
             # find the first source column that can be used (with sufficient transfer volume)
             for src_c in range(0, len(instructions)):
                 _, src_df, _, _ = instructions[src_c]
                 vtransfer = numpy.ceil(vmax_arr[c] * ideal_targets[:, c] / actual_targets[src_c])
                 # take the leftmost column (least dilution steps) where the minimal transfer volume is exceeded
-                if all(vtransfer >= min_transfer):
+                # and that still holds enough volume for this transfer
+                if all(vtransfer >= min_transfer) and all(drawn[src_c] + vtransfer <= vmax_arr[src_c]):
+                    drawn[src_c] = drawn[src_c] + vtransfer
                     instructions.append(
                         # increment the dilution step counter
                         (c, src_df + 1, src_c, vtransfer)
